@@ -42,14 +42,16 @@ def generate(rng, tier, index):
     wp = world.gen_world_plan(rng, max_images=3, max_lines=24)
     n = rng.choice(wp["images"])["lines"]
     local = wp["backend"] in world.LOCAL
-    producer = rng.choice(["option", "option", "option-moved", "none"] + (["cli", "cli"]
-                                                                          if local else []))
+    producer = rng.choice(["option", "option", "option-moved", "none"] + (
+        ["cli", "cli", "cli-relocated"] if local else []))
     if producer == "option":
         location = "user"
     elif producer == "option-moved":
         location = rng.choice(["adjacent", "both"])
     elif producer == "cli":
         location = rng.choice(["adjacent", "adjacent", "both"])
+    elif producer == "cli-relocated":
+        location = "adjacent"
     else:
         location = "nowhere"
     w_rpc = common.pick_rpc(rng, n)
@@ -57,7 +59,12 @@ def generate(rng, tier, index):
     spell = "same"
     if rng.random() < 0.25 and wp["backend"] in ("local", "file"):
         spell = rng.choice(["file", "slash"] if wp["backend"] == "local" else ["bare", "slash"])
+    if producer == "cli-relocated":
+        spell = "same"
     return {"world": wp, "producer": producer, "location": location, "w": w_rpc, "r": r_rpc,
+            "relocate_to": {"backend": rng.choice(["local", "file", "simfs", "simfs_opt",
+                                                   "memory"]),
+                            "dirs": rng.choice([["moved"], ["up", "loaded"], []])},
             "restart": rng.random() < 0.5, "cli_explicit_dir": rng.random() < 0.4,
             "consumer_spelling": spell,
             "default_use_cache": rng.random() < 0.5}
@@ -106,7 +113,7 @@ def execute(plan):
                         w.plant_adjacent(fn[:-len(".index")], data)
                     if location == "adjacent":
                         w.clear_user_cache()
-            elif producer == "cli":
+            elif producer in ("cli", "cli-relocated"):
                 import os
 
                 for img in prod.images:
@@ -135,6 +142,13 @@ def execute(plan):
                         "adjacent": sorted(w.adjacent()), "images": prod.images}))
                 if location == "both":
                     w.open(create_cache=True, use_cache=False, records_per_chunk=wr)
+                if producer == "cli-relocated":
+                    # the product is copied / uploaded together with its adjacent index; the
+                    # place it came from keeps files of the same names with other content
+                    w.relocate(plan["relocate_to"]["backend"], plan["relocate_to"]["dirs"])
+                    kind = backend_kind(w.backend)
+                    site = f"{producer}:{location}:{kind}"
+                    ref = w.open(use_cache=False, records_per_chunk=r)
         except Exception as e:  # noqa: BLE001
             violations.append(Violation(ID, "producer-raised", f"{producer}:{type(e).__name__}", {
                 "error": exc_text(e), "rpc": wr, "backend": w.backend}))
